@@ -22,6 +22,7 @@ type Clause struct {
 	Expr  ast.Expr
 	Src   string
 	KF    string // known-finding id guarding this clause (exclusion), if any
+	Tagged bool  // the clause names the properties it serves itself ({C11,C14} ...): it states part of a property, not a proof device
 }
 
 type LoopSpec struct {
@@ -325,6 +326,7 @@ func parseClause(s string, defProps []string) (Clause, error) {
 	if strings.HasPrefix(s, "{") {
 		k := strings.Index(s, "}")
 		cl.Props = splitList(s[1:k])
+		cl.Tagged = true
 		s = strings.TrimSpace(s[k+1:])
 	}
 	if strings.HasPrefix(s, "[") { // known-finding exclusion tag: [KF-xx]
